@@ -65,6 +65,31 @@ def _case_worker(payload):
                         # model input names may differ from parameter names
                         rep = R.replay_script(S.HEADER + prog.src, prog.entry, [n for n, _, _ in spec],
                                               {**feeds, **gfeeds}, attrs, mp.SerializeToString(), tag="c01r")
+                        if not rep["reproduced"] and v.get("kind") == "operator-correspondence":
+                            # the symbolic semantics is over the reals: a different operator can only show on the special values;
+                            # replay on the real code with NaN / +-inf / mixed values in every float input
+                            import itertools
+                            import numpy as np
+                            specials = [np.nan, np.inf, -np.inf, 0.0, 1.0, -1.0]
+                            for trial in range(12):
+                                sf = {}
+                                for k_, (n, dt, sh) in enumerate(spec):
+                                    a = np.zeros(sh, dtype=dt.numpy())
+                                    if a.dtype.kind == "f":
+                                        flat = a.reshape(-1)
+                                        for j in range(flat.size):
+                                            flat[j] = specials[(trial + 2 * j + 3 * k_) % len(specials)]
+                                    elif a.dtype.kind == "b":
+                                        a[...] = (trial % 2 == 0)
+                                    else:
+                                        a[...] = (trial % 3) - 1
+                                    sf[n] = a
+                                sg = {gn: sf[n] for gn, n in v.get("input_names", {}).items()} if v.get("input_names") else sf
+                                rep2 = R.replay_script(S.HEADER + prog.src, prog.entry, [n for n, _, _ in spec],
+                                                       {**sf, **sg}, attrs, mp.SerializeToString(), tag="c01r")
+                                if rep2["reproduced"]:
+                                    rep, feeds = rep2, sf
+                                    break
                         case["replay"] = {k: rep[k] for k in ("reproduced", "difference", "eager_err", "graph_err")}
                         case["replay_record"] = {
                             "engine": "S", "harness": f"c01.{prog.name}.{leg}",
@@ -142,6 +167,9 @@ def main(tier: str, only=None) -> int:
                     else:
                         path = common.write_replay("C01", c["replay_record"])
                         run.violation(path, f"{r['program']} leg={c['leg']} {rep.get('difference','')[:160]}")
+                elif c.get("kind") == "operator-correspondence":
+                    # different operators, but no observable difference on finite or special values
+                    run.note_inconclusive(f"{r['program']} leg={c['leg']}: {c.get('detail')} - no value difference observed on NaN/inf replays")
                 else:
                     run.harness_error(f"{r['program']} leg={c['leg']}: counterexample does not reproduce on the real code "
                                       f"({c.get('detail')}; inputs {json.dumps(c.get('inputs'))[:300]})")
